@@ -171,6 +171,9 @@ class C10(Check):
     def _culprit(self, patches, orig_items):
         """Category / position of the first applied patch that partly overlaps template code."""
         for p in patches or []:
+            if p.source_slice.start > p.source_slice.stop:
+                return "inverted-range", "interior"
+        for p in patches or []:
             s, e = p.source_slice.start, p.source_slice.stop
             for typ, raw, idx in orig_items:
                 a, b = idx, idx + len(raw)
